@@ -25,7 +25,7 @@ fn merge(mut a: Value, b: Value) -> Value {
 
 fn cfg_json(c: &Cfg) -> Value {
     let phon = c.is_phonetic();
-    json!({"method": if phon { "phonetic" } else { "fixed" }, "layout": c.layout, "sug": c.sug(), "numpad": c.numpad,
+    json!({"method": if phon { "phonetic" } else { "fixed" }, "layout": c.layout, "sug": c.sug(), "numpad": c.numpad, "ansi": c.ansi,
            "o": {"vowel": c.vowel, "chandra": c.chandra, "kar": c.kar, "reph": c.reph, "karorder": c.karorder}})
 }
 
@@ -62,6 +62,17 @@ impl Word {
 }
 
 impl Recorder {
+    /// Facts about the output encoding of a returned suggestion (C16): does a candidate hold an emoji of the tables, does a
+    /// pre-edit text hold a Bengali-block code point, is every pre-edit text the candidate itself / its Bijoy encoding.
+    fn ansi_facts(&self, o: &Obs) -> Value {
+        let texts: Vec<&String> = if o.kind == "full" || o.kind == "single" { o.cands.iter().collect() } else { Vec::new() };
+        let known = texts.iter().any(|c| crate::record::known_unencodable(c));
+        json!({"anyemoji": texts.iter().any(|c| self.or.has_table_emoji(c)),
+               "prebn": o.pre.iter().any(|p| p.as_deref().map(crate::oracles::has_bengali).unwrap_or(false)),
+               "preeq": texts.iter().zip(o.pre.iter()).all(|(c, p)| p.as_deref() == Some(c.as_str())),
+               "prebijoy": known || texts.iter().zip(o.pre.iter()).all(|(c, p)| p.is_some() && *p == crate::oracles::bijoy(c))})
+    }
+
     /// The suggestion a brand-new context gives for the surviving text; ("eq" | "diff" | "na", description).
     fn shadow_compare(&self, cfg: &Cfg, w: &Word, live: &Obs, last_was_char_key: bool, sel: u8) -> (&'static str, String) {
         if live.kind == "panic" || live.kind == "none" {
@@ -178,6 +189,7 @@ impl Recorder {
         bnames.sort();
         let letters: Vec<u16> = "abcdefghijklmnopqrstuvwxyzABDGHJKNOSTZ".chars().filter_map(|c| self.keys.code_for_char(c)).collect();
         let all: Vec<u16> = self.keys.codes.iter().map(|k| k.code).collect();
+        let nochar: Vec<u16> = self.keys.codes.iter().filter(|k| k.ch.is_empty()).map(|k| k.code).collect();
         let lead = ["", "", "", "(", "\"", "'", "[", "\"("];
         let trail = ["", "", "", ")", "\"", "'", ".", "?", ",", ")\"", ":", "!"];
 
@@ -270,14 +282,16 @@ impl Recorder {
                             w.bs = true;
                         }
                         let (f, what) = if boundary || self.rng.below(2) == 0 { self.shadow_compare(&cfg, &w, &o, false, 0) } else { ("skip", String::new()) };
-                        self.emit(merge(json!({"ev": "bs", "ctrl": ctrl, "fresh": f, "fwhat": what}), Self::ret_fields(&o)));
+                        let af = self.ansi_facts(&o);
+                        self.emit(merge(merge(json!({"ev": "bs", "ctrl": ctrl, "fresh": f, "fwhat": what}), Self::ret_fields(&o)), af));
                         if o.kind != "empty" { boundary = false; } else { boundary = true; }
                         last = o;
                         if i > 0 && self.rng.below(2) == 0 { i -= 1; }
                         continue;
                     }
-                    let (code, m) = plan[i];
-                    i += 1;
+                    // now and then a key WITHOUT a character (keypad Enter / Equals in the phonetic method, a key the layout leaves
+                    // unassigned in the fixed one) in the middle of the word: it changes nothing
+                    let (code, m) = if !nochar.is_empty() && self.rng.below(25) == 0 { (*self.rng.pick(&nochar), 0u8) } else { i += 1; plan[i - 1] };
                     let sel = if last.kind == "full" && last_len > 0 {
                         match self.rng.below(4) { 0 => self.rng.below(last_len.min(255)) as u8, 1 => (last_len.min(255) - 1) as u8, _ => last.sel.min(last_len - 1).min(255) as u8 }
                     } else { 0 };
@@ -295,7 +309,8 @@ impl Recorder {
                     }
                     let cmp = boundary || self.rng.below(3) == 0 || i == plan.len();
                     let (f, what) = if cmp { self.shadow_compare(&cfg, &w, &o, !phon || ch.is_some(), sel) } else { ("skip", String::new()) };
-                    self.emit(merge(json!({"ev": "key", "code": code, "mod": m, "sel": sel, "fresh": f, "fwhat": what}), Self::ret_fields(&o)));
+                    let af = self.ansi_facts(&o);
+                    self.emit(merge(merge(json!({"ev": "key", "code": code, "mod": m, "sel": sel, "fresh": f, "fwhat": what}), Self::ret_fields(&o)), af));
                     if o.kind == "single" || o.kind == "full" { boundary = false; }
                     last = o;
                 }
@@ -305,8 +320,16 @@ impl Recorder {
                 if e < 11 && shown && last.len() > 0 {
                     let n = last.len();
                     let idx = match self.rng.below(4) { 0 => self.rng.below(n), 1 => 0, 2 => n - 1, _ => last.sel.min(n - 1) };
+                    let store = self.home.join("openbangla-keyboard/phonetic-candidate-selection.json");
+                    let before = std::fs::read(&store).ok();
                     let o = ctx.commit(idx);
-                    self.emit(json!({"ev": "commit", "idx": idx, "ongoing": o.ongoing, "panic": o.panic.clone().unwrap_or_default()}));
+                    let after = std::fs::read(&store).ok();
+                    // may this commit have been a learning one?  (a list-style suggestion and another index than the one the engine
+                    // computed; after a punctuation key the REPORTED index is the caller's byte, the computed one is not visible)
+                    let echo = w.comp.chars().last().map(|c| PRESERVE.contains(c)).unwrap_or(false);
+                    let learnable = last.kind == "full" && cfg.is_phonetic() && (idx != last.sel || echo);
+                    self.emit(json!({"ev": "commit", "idx": idx, "ongoing": o.ongoing, "panic": o.panic.clone().unwrap_or_default(),
+                                     "filechg": before != after, "learnable": learnable}));
                     if o.kind == "panic" { dead = true; break 'session; }
                 } else if e < 15 {
                     let o = ctx.finish();
@@ -439,7 +462,8 @@ impl Recorder {
                             let ch = self.keys.char_for_code(*code);
                             if cur.is_phonetic() { if let Some(c) = ch { w.comp.push(c); } } else { w.keys.push((*code, *m)); }
                             let (f, what) = if i + 1 == plan.len() || i == 0 { self.shadow_compare(&cur, &w, &o, true, 0) } else { ("skip", String::new()) };
-                            self.emit(merge(json!({"ev": "key", "code": code, "mod": m, "sel": 0, "fresh": f, "fwhat": what}), Self::ret_fields(&o)));
+                            let af = self.ansi_facts(&o);
+                            self.emit(merge(merge(json!({"ev": "key", "code": code, "mod": m, "sel": 0, "fresh": f, "fwhat": what}), Self::ret_fields(&o)), af));
                         }
                         let o = ctx.finish();
                         self.emit(json!({"ev": "finish", "ongoing": o.ongoing, "panic": o.panic.clone().unwrap_or_default()}));
